@@ -574,6 +574,15 @@ def flush(ctx):
         return
     by_id = {cid: (kind, D) for cid, _, kind, D in todo}
     shard = max(10, -(-len(todo) // 8)) if ctx.quick else 40
+    # the shards are evaluated in parallel: fill them so that their text sizes (= elaboration time) are balanced
+    nb = -(-len(todo) // shard)
+    caps = [shard] * (nb - 1) + [len(todo) - shard * (nb - 1)]
+    bins, weight = [[] for _ in range(nb)], [0] * nb
+    for item in sorted(todo, key=lambda t: -len(t[1])):
+        b = min((i for i in range(nb) if len(bins[i]) < caps[i]), key=lambda i: weight[i])
+        bins[b].append(item)
+        weight[b] += len(item[1])
+    todo = [item for b in bins for item in b]
     failed, errors = ctx.coq_cases("corr", WORLD_HEADER, [(cid, case) for cid, case, _, _ in todo], shard=shard)
     for path, err in errors:
         ctx.broken_obligation("correspondence:" + path.split("/")[-1], err)
@@ -1487,17 +1496,20 @@ class World:
         D = self.root
         init = "[" + "; ".join(f"({fc}, {blit(a)}, {blit(b)})" for fc, a, b in D.init_sites) + "]"
         steps = []
+        names = {}  # an observed tensor list is written once (most holders do not change in a step)
         for coq, exp in self.wsteps:
             if exp is None:
                 e = "None"
             else:
-                e = "(Some [" + "; ".join(f"({natlit(c)}, {rec_to_coq(r)}, {obs_to_coq(o)})" for c, r, o in exp) + "])"
+                e = "(Some [" + "; ".join(f"({natlit(c)}, {rec_to_coq(r)}, {names.setdefault(obs_to_coq(o), f'o{len(names)}')})"
+                                          for c, r, o in exp) + "])"
             steps.append(f"({coq}, {e})")
-        return f"(wstart {init} {rec_to_coq(self.init_rec)})", "[" + ";\n    ".join(steps) + "]"
+        lets = "".join(f"let {nm} := {txt} in\n    " for txt, nm in names.items())
+        return lets, f"(wstart {init} {rec_to_coq(self.init_rec)})", "[" + ";\n    ".join(steps) + "]"
 
     def coq_case(self):
-        w, h = self.coq_terms()
-        return f"wcheck {w} {h}"
+        lets, w, h = self.coq_terms()
+        return f"{lets}wcheck {w} {h}"
 
 
 def gen_world_circuit_op(rng, cls, N):
@@ -1794,8 +1806,8 @@ def world_divergence(ctx, W):
     """first world step at which model and implementation part (one evaluation inside Coq)"""
     import re
 
-    w, h = W.coq_terms()
-    rc, out, err = ctx.coq_eval(f"wdiag{W.hid}", WORLD_HEADER + f"Eval vm_compute in (wdiag {w} {h} 1%nat).\n")
+    lets, w, h = W.coq_terms()
+    rc, out, err = ctx.coq_eval(f"wdiag{W.hid}", WORLD_HEADER + f"Eval vm_compute in ({lets}wdiag {w} {h} 1%nat).\n")
     info = W.payload()
     m = re.search(r"=\s*(\d+)\s*:\s*nat", out.replace("\n", " "))
     if rc != 0 or not m:
